@@ -1,5 +1,8 @@
 //! Family binary (checks are registered here).
+mod c51;
+mod c54;
+mod c56;
 
 fn main() {
-    mc::main_dispatch(&[]);
+    mc::main_dispatch(&[("C54", c54::run, c54::META), ("C56", c56::run, c56::META), ("C51", c51::run, c51::META)]);
 }
